@@ -20,6 +20,12 @@ mod kani_c16_cache {
         c
     }
     fn entry(c: &Cache, a: &IpAddress) -> Option<(HardwareAddress, Instant)> { c.storage.get(a).map(|n| (n.hardware_addr, n.expires_at)) }
+    impl Cache {
+        /// companions for the interface-level C16 harnesses
+        pub(crate) fn kani_any() -> Cache { any_cache() }
+        pub(crate) fn kani_entry(&self, a: &IpAddress) -> Option<(HardwareAddress, Instant)> { entry(self, a) }
+        pub(crate) fn kani_silent_until(&self) -> Instant { self.silent_until }
+    }
 
     #[kani::proof] #[kani::unwind(8)]
     fn c16_cache_lookup() {
@@ -114,5 +120,205 @@ mod kani_c16_routes {
                 assert!(ok, "C16.routes: the gateway of a longest-prefix unexpired matching route is chosen");
             }
         }
+    }
+}
+
+//@@ append src/iface/interface/mod.rs
+// C16, interface level: lookup_hardware_addr (which hardware address a unicast packet is sent to, what is emitted while it is
+// unknown, the rate limit) and process_arp (what may fill the cache). Cache::lookup / fill / limit_rate and Routes::lookup have
+// their own contracts above and are used here as specification accessors on the PRE-state.
+#[cfg(kani)]
+#[cfg(all(feature = "medium-ethernet", feature = "proto-ipv4"))]
+mod kani_c16_iface {
+    use super::*;
+    use crate::iface::neighbor::Answer as NeighborAnswer2;
+    use crate::iface::Route;
+    use crate::wire::*;
+
+    const MAC: EthernetAddress = EthernetAddress([0x02, 0, 0, 0, 0, 0x01]);
+    fn any_instant() -> Instant { let us: i64 = kani::any(); kani::assume(us >= 0 && us < (1i64 << 40)); Instant::from_micros(us) } // tag: range
+    fn any_v4() -> Ipv4Address { Ipv4Address::from_bits(kani::any()) }
+
+    /// records the one frame handed to the device
+    struct RecTx<'a> { used: &'a mut bool, len: &'a mut usize, buf: &'a mut [u8; 64] }
+    impl<'a> crate::phy::TxToken for RecTx<'a> {
+        fn consume<R, F>(self, len: usize, f: F) -> R where F: FnOnce(&mut [u8]) -> R {
+            assert!(!*self.used && len <= 64, "harness: one frame of at most 64 octets");
+            *self.used = true; *self.len = len;
+            f(&mut self.buf[..len])
+        }
+    }
+
+    /// Ethernet interface with one symbolic IPv4 CIDR, any neighbor cache, at most one symbolic route
+    fn iface(now: Instant) -> InterfaceInner {
+        let mut cx = InterfaceInner::kani_ctx(now, 1500, kani::any(), false);
+        cx.caps.medium = Medium::Ethernet;
+        cx.hardware_addr = HardwareAddress::Ethernet(MAC);
+        let own = any_v4();
+        let plen: u8 = kani::any();
+        kani::assume(plen <= 32 && own.x_is_unicast()); // tag: pre
+        cx.ip_addrs.push(IpCidr::Ipv4(Ipv4Cidr::new(own, plen))).unwrap();
+        kani::assume(!cx.is_broadcast_v4(own)); // tag: pre
+        cx.neighbor_cache = NeighborCache::kani_any();
+        if kani::any() {
+            let rl: u8 = kani::any();
+            kani::assume(rl <= 32); // tag: pre
+            let rt = Route { cidr: IpCidr::Ipv4(Ipv4Cidr::new(any_v4(), rl)), via_router: IpAddress::Ipv4(any_v4()),
+                preferred_until: if kani::any() { Some(any_instant()) } else { None }, expires_at: if kani::any() { Some(any_instant()) } else { None } };
+            kani::assume(rt.via_router.is_unicast()); // tag: configuration-precondition (a gateway is a unicast address; Cache::lookup asserts it)
+            cx.routes.update(|v| { let _ = v.push(rt); });
+        }
+        cx
+    }
+
+    /// a unicast packet goes to the hardware address learned (and unexpired) for its next hop and to no other; while that address
+    /// is unknown the only frame that may leave is one broadcast ARP request for the next hop, none at all while discovery is
+    /// silenced, and a request that left silences discovery for the next second
+    #[kani::proof] #[kani::unwind(8)]
+    fn c16_lookup_hardware_addr_unicast_v4() {
+        let now = any_instant();
+        let mut cx = iface(now);
+        let d4 = any_v4();
+        let dst = IpAddress::Ipv4(d4);
+        kani::assume(dst.is_unicast() && !cx.is_broadcast(&dst)); // tag: case-split (broadcast / multicast: c16_lookup_hardware_addr_broadcast_multicast_v4)
+        // specification of the next hop: the destination itself if on-link, otherwise the gateway chosen by Routes::lookup (its contract: C16.routes)
+        let nh = if cx.ip_addrs.iter().any(|c| c.contains_addr(&dst)) { Some(dst) } else { cx.routes.lookup(&dst, now) };
+        let pre = nh.map(|n| cx.neighbor_cache.lookup(&n, now));
+        let (mut used, mut flen, mut frame) = (false, 0usize, [0u8; 64]);
+        let mut fragmenter = Fragmenter::new();
+        let r = cx.lookup_hardware_addr(RecTx { used: &mut used, len: &mut flen, buf: &mut frame }, &dst, &mut fragmenter);
+        let r = r.map(|(hw, tok)| { drop(tok); hw });
+        kani::cover!(r.is_ok(), "a resolved next hop");
+        kani::cover!(nh.is_some() && nh != Some(dst) && r.is_ok(), "a resolved gateway");
+        kani::cover!(used, "an ARP request is sent");
+        match r {
+            Ok(hw) => {
+                assert!(pre == Some(NeighborAnswer2::Found(hw)), "C16.lookup: the packet goes to the unexpired learned address of its next hop, and to no other");
+                assert!(!used, "C16.lookup: nothing else is transmitted when the next hop is resolved");
+            }
+            Err(e) => match pre {
+                None => assert!(e == DispatchError::NoRoute && !used, "C16.lookup: without a route nothing is sent"),
+                Some(NeighborAnswer2::Found(_)) => assert!(false, "C16.lookup: a resolved next hop is used"),
+                Some(NeighborAnswer2::RateLimited) => assert!(e == DispatchError::NeighborPending && !used, "C16.lookup: no second discovery request within the silent period"),
+                Some(NeighborAnswer2::NotFound) => {
+                    let nh4 = match nh { Some(IpAddress::Ipv4(a)) => a, #[allow(unreachable_patterns)] _ => unreachable!() };
+                    if used {
+                        assert!(flen == 14 + 28, "C16.lookup: the only frame sent for an unresolved next hop is an ARP request");
+                        let f = EthernetFrame::new_unchecked(&frame[..flen]);
+                        assert!(f.dst_addr() == EthernetAddress::BROADCAST && f.src_addr() == MAC && f.ethertype() == EthernetProtocol::Arp, "C16.lookup: ... broadcast, from our address");
+                        let a = ArpRepr::parse(&ArpPacket::new_unchecked(f.payload()));
+                        assert!(matches!(a, Ok(ArpRepr::EthernetIpv4 { operation: ArpOperation::Request, source_hardware_addr, source_protocol_addr, target_protocol_addr, .. })
+                            if source_hardware_addr == MAC && target_protocol_addr == nh4 && cx.has_ip_addr(source_protocol_addr)), "C16.lookup: ... asking for the next hop, from one of our addresses");
+                        assert!(e == DispatchError::NeighborPending, "C16.lookup: the packet itself stays pending");
+                        assert!(cx.neighbor_cache.lookup(&IpAddress::Ipv4(nh4), now) == NeighborAnswer2::RateLimited, "C16.lookup: a request that left silences discovery");
+                        assert!(cx.neighbor_cache.kani_silent_until() == now + Duration::from_millis(1_000), "C16.lookup: ... for one second");
+                    }
+                }
+            },
+        }
+    }
+
+    /// dispatch_ip on Ethernet: a unicast IPv4 datagram leaves only inside a frame addressed to the learned hardware address of its
+    /// next hop (source = our address, ethertype IPv4, the datagram unmodified behind the 14-octet header, within MTU + header);
+    /// while the next hop is unresolved the datagram is refused (NeighborPending / NoRoute: the socket keeps it queued) and the only
+    /// frame that may leave instead is an ARP request
+    #[cfg(feature = "socket-udp")]
+    #[kani::proof] #[kani::unwind(12)]
+    fn c16_dispatch_ip_ethernet_unicast_udp_v4() {
+        let now = any_instant();
+        let mut cx = iface(now);
+        cx.caps.checksum = ChecksumCapabilities::ignored();   // checksum correctness of the emitters: C08
+        let d4 = any_v4();
+        let dst = IpAddress::Ipv4(d4);
+        kani::assume(dst.is_unicast() && !cx.is_broadcast(&dst)); // tag: case-split
+        let nh = if cx.ip_addrs.iter().any(|c| c.contains_addr(&dst)) { Some(dst) } else { cx.routes.lookup(&dst, now) };
+        let pre = nh.map(|n| cx.neighbor_cache.lookup(&n, now));
+        let pay: [u8; 2] = kani::any();
+        let n: usize = kani::any();
+        kani::assume(n <= 2); // tag: range
+        let udp = UdpRepr { src_port: kani::any(), dst_port: kani::any() };
+        kani::assume(udp.dst_port != 0); // tag: pre
+        let ip = Ipv4Repr { src_addr: any_v4(), dst_addr: d4, next_header: IpProtocol::Udp, payload_len: 8 + n, hop_limit: kani::any() };
+        let (mut used, mut flen, mut frame): (bool, usize, [u8; 64]) = (false, 0, kani::any());
+        let mut fragmenter = Fragmenter::new();
+        let r = cx.dispatch_ip(RecTx { used: &mut used, len: &mut flen, buf: &mut frame }, PacketMeta::default(), Packet::new_ipv4(ip, IpPayload::Udp(udp, &pay[..n])), &mut fragmenter);
+        kani::cover!(r.is_ok() && used, "a datagram is transmitted");
+        kani::cover!(r.is_err() && used, "an ARP request is transmitted instead");
+        match r {
+            Ok(()) => {
+                assert!(used && flen == 14 + 20 + 8 + n && flen <= 14 + 1500, "C16.dispatch: one frame of header + datagram length, within the MTU");
+                let f = EthernetFrame::new_unchecked(&frame[..flen]);
+                assert!(f.ethertype() == EthernetProtocol::Ipv4 && f.src_addr() == MAC, "C16.dispatch: an IPv4 frame from our hardware address");
+                assert!(pre == Some(NeighborAnswer2::Found(HardwareAddress::Ethernet(f.dst_addr()))), "C16.dispatch: addressed to the unexpired learned hardware address of the next hop, and to no other");
+                let p = Ipv4Packet::new_checked(f.payload()).unwrap();
+                assert!(Ipv4Repr::parse(&p, &ChecksumCapabilities::ignored()) == Ok(ip), "C16.dispatch: the datagram's IPv4 header is emitted as given");
+                let u = UdpPacket::new_checked(p.payload()).unwrap();
+                assert!(UdpRepr::parse(&u, &ip.src_addr.into(), &d4.into(), &ChecksumCapabilities::ignored()) == Ok(udp), "C16.dispatch: ... and its UDP header");
+                let j: usize = kani::any();
+                if j < n { assert!(u.payload()[j] == pay[j], "C16.dispatch: payload unmodified"); }
+            }
+            Err(e) => {
+                assert!(!matches!(pre, Some(NeighborAnswer2::Found(_))), "C16.dispatch: a datagram for a resolved next hop is transmitted");
+                assert!(e == DispatchError::NeighborPending || (e == DispatchError::NoRoute && !matches!(pre, Some(NeighborAnswer2::RateLimited))), "C16.dispatch: an unresolved next hop is reported as pending (the socket keeps the datagram)");
+                if used { assert!(EthernetFrame::new_unchecked(&frame[..flen]).ethertype() == EthernetProtocol::Arp, "C16.dispatch: nothing but an ARP request leaves while the next hop is unknown"); }
+            }
+        }
+    }
+
+    /// broadcast and multicast destinations map to the broadcast / group hardware address without consulting the cache
+    #[kani::proof] #[kani::unwind(8)]
+    fn c16_lookup_hardware_addr_broadcast_multicast_v4() {
+        let now = any_instant();
+        let mut cx = iface(now);
+        let d4 = any_v4();
+        let dst = IpAddress::Ipv4(d4);
+        kani::assume(cx.is_broadcast(&dst) || dst.is_multicast()); // tag: case-split
+        let (mut used, mut flen, mut frame) = (false, 0usize, [0u8; 64]);
+        let mut fragmenter = Fragmenter::new();
+        let r = cx.lookup_hardware_addr(RecTx { used: &mut used, len: &mut flen, buf: &mut frame }, &dst, &mut fragmenter);
+        let r = r.map(|(hw, tok)| { drop(tok); hw });
+        let b = d4.octets();
+        let want = if cx.is_broadcast(&dst) { EthernetAddress::BROADCAST } else { EthernetAddress([0x01, 0x00, 0x5e, b[1] & 0x7f, b[2], b[3]]) };
+        assert!(r == Ok(HardwareAddress::Ethernet(want)) && !used, "C16.lookup: broadcast -> ff:ff:ff:ff:ff:ff, multicast -> 01:00:5e + low 23 bits, nothing else sent");
+    }
+
+    /// the cache is filled only from an ARP packet aimed at one of our addresses, with a known operation, from a unicast protocol
+    /// and hardware address inside one of our networks - and then exactly that pair is learned; otherwise no entry changes
+    #[kani::proof] #[kani::unwind(8)]
+    fn c16_process_arp_fills_only_validated() {
+        let now = any_instant();
+        let mut cx = iface(now);
+        let mut bytes: [u8; 14 + 28] = kani::any();
+        bytes[12] = 0x08; bytes[13] = 0x06;
+        let n: usize = kani::any();
+        kani::assume(n >= 14 && n <= 14 + 28); // tag: range
+        let k = IpAddress::Ipv4(any_v4());          // ghost: any cache key
+        let before = cx.neighbor_cache.kani_entry(&k);
+        let silent = cx.neighbor_cache.kani_silent_until();
+        let frame = EthernetFrame::new_unchecked(&bytes[..n]);
+        let parsed = ArpPacket::new_checked(frame.payload()).and_then(|p| ArpRepr::parse(&p));
+        let r = cx.process_arp(now, &frame);
+        let after = cx.neighbor_cache.kani_entry(&k);
+        let valid = match parsed {
+            Ok(ArpRepr::EthernetIpv4 { operation, source_hardware_addr, source_protocol_addr, target_protocol_addr, .. }) =>
+                if cx.has_ip_addr(target_protocol_addr) && !matches!(operation, ArpOperation::Unknown(_)) && source_protocol_addr.x_is_unicast() && source_hardware_addr.is_unicast()
+                    && cx.ip_addrs.iter().any(|c| c.contains_addr(&IpAddress::Ipv4(source_protocol_addr))) { Some((source_protocol_addr, source_hardware_addr, operation)) } else { None },
+            Err(_) => None,
+        };
+        kani::cover!(valid.is_some(), "a validated ARP packet");
+        kani::cover!(valid.is_none() && parsed.is_ok(), "a well-formed but rejected ARP packet");
+        match valid {
+            None => { assert!(after == before, "C16.arp: a packet that is not validated teaches nothing"); assert!(r.is_none(), "C16.arp: ... and is not answered"); }
+            Some((sip, shw, op)) => {
+                assert!(cx.neighbor_cache.kani_entry(&IpAddress::Ipv4(sip)) == Some((HardwareAddress::Ethernet(shw), now + Duration::from_millis(60_000))), "C16.arp: exactly the sender's pair is learned, for 60 s");
+                match r {
+                    Some(EthernetPacket::Arp(ArpRepr::EthernetIpv4 { operation: ArpOperation::Reply, source_hardware_addr, target_hardware_addr, target_protocol_addr, .. })) =>
+                        assert!(op == ArpOperation::Request && source_hardware_addr == MAC && target_hardware_addr == shw && target_protocol_addr == sip, "C16.arp: a request is answered to its sender"),
+                    None => assert!(op != ArpOperation::Request, "C16.arp: only requests are answered"),
+                    _ => assert!(false, "C16.arp: the only answer is an ARP reply"),
+                }
+            }
+        }
+        assert!(cx.neighbor_cache.kani_silent_until() == silent, "C16.arp: the discovery rate limit is not touched");
     }
 }
